@@ -2,7 +2,7 @@
    A statement about wall time is not a theorem; its logical core is: which sets are ever enumerated and how big. *)
 From Coq Require Import ZArith List Bool.
 From PV Require Import Util.ListSet Util.Sumset BLS.Model BLS.Den BLS.ProofsMod BLS.Cost BLS.CostProofs
-  Layout.Types Layout.Proofs Layout.ProofsSpec.
+  Layout.Types Layout.Proofs Layout.ProofsSpec Layout.Offsets Layout.CostProofs.
 Import ListNotations.
 Open Scope Z_scope.
 
@@ -55,6 +55,21 @@ Proof.
   unfold is_aligned in H. apply list_eqb_eq. apply H. intros x D. rewrite <- A. exact (align_divides t W x D).
 Qed.
 Print Assumptions C16_byte_aligned_single_residue.
+
+(* pairwise (left-nested) aggregation: every concatenation node of a type's set - and of the offsets of its fields - has at
+   most two operands, and one modulo() call on such a node enumerates at most divisor^2 tuples *)
+Theorem C16_pairwise_aggregation : forall t, binary_cats (bls t).
+Proof. exact bls_binary. Qed.
+Print Assumptions C16_pairwise_aggregation.
+
+Theorem C16_pairwise_offsets : forall fs, Forall (fun f => binary_cats (bls (snd f))) fs -> forall acc, binary_cats acc ->
+  Forall (fun fo => binary_cats (snd fo)) (struct_offsets_from acc fs).
+Proof. exact offsets_binary. Qed.
+Print Assumptions C16_pairwise_offsets.
+
+Theorem C16_pair_bound : forall a b d, wf a -> wf b -> 1 <= d -> local_cost KCat [zlen (omod a d); zlen (omod b d)] 0 d <= d * d.
+Proof. exact cat2_local_bound. Qed.
+Print Assumptions C16_pair_bound.
 
 Example C16_nonvacuous :
   let t := bls (TVar (TStruct [110] [(Some [97], TVar (TPrim (PUInt 8 Sat)) (2 ^ 63))]) (2 ^ 63)) in
